@@ -265,7 +265,8 @@ Theorem C20_extend_additional_identifier : forall x cd es cids nids s, valid_ext
 Proof. exact extend_complete_additional_identifier. Qed.
 Theorem C20_extend_flags : forall x H, valid_extend x ->
   validate_extend (with_add x H (Some false)) = Raise ValueError /\
-  (x_omega_given x = false -> ~ (all_equal_nonempty (optnat_tags (map (fun e => p_omega (x_pulse e)) (x_entries x))) = true /\
+  (2 <= length (x_entries x) ->
+   x_omega_given x = false -> ~ (all_equal_nonempty (optnat_tags (map (fun e => p_omega (x_pulse e)) (x_entries x))) = true /\
                                  forallb (fun e => negb (is_none (p_omega (x_pulse e)))) (x_entries x) = true) ->
    validate_extend (Build_extend_d (x_entries x) (x_ndt x) (x_N x) (x_dpq x) (x_add x) (x_cache_diag x) (Some true) false) = Raise ValueError).
 Proof. exact extend_complete_flags. Qed.
